@@ -193,6 +193,8 @@ def oracle(case, out):
         return "a connection made after shutdown returned was served"
     if len(obs["probes"]) > 1 and obs["probes"][1] != "refused":
         return "connect() 100 ms after shutdown returned: %s" % obs["probes"][1]
+    if i_acc is not None and tr[i_acc][1] != case["mode"]:
+        return None  # a concurrent second call won the race for the command inbox: the rest judges the first call's mode
     # which worker got which connection, which workers are parked by a blocking handler at the call
     worker_of = {e[1]: e[2] for e in tr[:i_call] if e[0] == "dispatch" and e[3] == "ok"}
     gate_rel = []
